@@ -204,6 +204,10 @@ func init() {
 						id = uint64(c.R.Pick(1, 2, 0xffff, 0x10000))
 					}
 					c17ID(c, id, "id")
+					c.Echo("MsgID2String+MsgIDString2Uint64", func() string {
+						s := cmpp.MsgID2String(id)
+						return fmt.Sprintf("%s %#x %v", s, cmpp.MsgIDString2Uint64(s), fmt.Sprint(cmpp.SplitMsgID(id)))
+					})
 					c.Sample(2, map[string]any{"fields": p, "id": fmt.Sprintf("%#016x", refCombine(p)), "string": cmpp.MsgID2String(refCombine(p))})
 				},
 			},
